@@ -94,6 +94,9 @@ func (p *parser) doExpression(rbp int) *token {
 	t := p.Token
 	p.Next()
 	left := getSymbol(t).Nud(p, t)
+	if left == nil { // empty statement
+		return nil
+	}
 	for rbp < getSymbol(p.Token).Lbp && !slices.Contains(p.mask, p.Token.Symbol) {
 		t = p.Token
 		p.Next()
